@@ -1,6 +1,7 @@
 """Source of truth for MANIFEST.json (tools/gen_manifest.py)."""
 HOOK_COMMITS = []
 ENGINES = [
+    {"name": "E4-cfg", "path": "vf/props/c12.py", "serves_properties": ["C12"], "kind_free_text": "abstract CFG explorer for compiled flows + concrete head-move recorder"},
     {"name": "E2-aio", "path": "vf/engines/aio.py", "serves_properties": ["C15", "C19"], "kind_free_text": "virtual asyncio loop + stateless DFS schedule explorer with prefix replay"},
     {"name": "E3-world", "path": "vf/engines/world.py", "serves_properties": ["C01", "C02", "C03", "C15", "C16", "C17"], "kind_free_text": "real LLMRails in a scripted closed environment (scripted LLM, fake embeddings, stub actions); conversation BFS"},
     {"name": "E4-parser", "path": "vf/props/c13.py", "serves_properties": ["C13"], "kind_free_text": "layout-edit and mutation enumerators over the real Colang parsers and RailsConfig.from_path"},
@@ -116,5 +117,11 @@ CHECKS["C15"] = {
     "technique": "exhaustive enumeration of request interleavings (sequential) and of all arrival / LLM-completion orders of overlapping generate_async tasks on a hand-driven virtual asyncio loop (stateless DFS with prefix replay); oracle = each conversation replayed alone",
     "text": "Sequential: six conversation sets built to collide under the lossy events-cache key (separator in user text, split messages, same text in different roles, context-looking text, shared prefixes) in a general and a dialog world, every interleaving of their requests on one instance, each request's reply and LLM prompts compared with the isolated run. Concurrent: 2 (quick) / 3 (thorough) generate_async tasks with different llm_params, every LLM call awaiting an explorer-owned future, all arrival/completion orders (and arrivals between loop iterations up to a deviation bound): every call runs with its request's parameters, replies/prompts equal the isolated run, parameters at rest are the configured ones.",
     "note": _E3_NOTE + " The virtual loop (vf/engines/aio.py) owns the ready queue (FIFO, never permuted), timers and external completions; replayed schedules must reproduce identical enabled-choice lists and observations.",
+}
+CHECKS["C12"] = {
+    "engine": "E4-cfg (abstract control-flow graph explorer bound to the interpreter)", "level": "model_checking",
+    "technique": "explicit-state exploration of an abstract control-flow graph of every compiled flow (state = position, failure-handler stack, open scopes, registered forks) for all generated programs up to a node bound and all shipped .co files; the abstraction is bound to the code by replaying recorded concrete head moves of the real interpreter against the graph",
+    "text": "All Colang 2.x and 1.0 programs of a control grammar (if/else, while, when/or when/else, groups incl. DNF-distributed ones, break/continue, return/abort) up to 5-6 (quick) / 7 (thorough) nodes plus a rich statement family and the 210 shipped .co files: every jump / fork / failure-handler / loop-exit target exists and lies inside the flow, handler stack never pops empty, scopes never re-opened and closed at a fall-off end, no composite element left; v1: every offset read by slide/compute_next_state lands in [0,len]. Every concrete FlowHead.position assignment of interpreter runs over short histories must be an edge of the abstract graph; v1 slide() is compared with the model under all-true/all-false conditions.",
+    "note": "Trusted: the abstract successor relation (validated against millions of concrete head moves); wrong-but-in-range offsets are outside the statement and not detected; heads of one flow are not modelled jointly.",
 }
 NOT_APPLICABLE = {}
